@@ -11,7 +11,8 @@ MODULES = [
     'contracts.c26_replay',
 ]
 
-EXTRA_CHECKS = {'C26': ['contracts.c26_census:check']}
+EXTRA_CHECKS = {'C26': ['contracts.c26_census:check'],
+                'C05': ['contracts.c05_bounded:check']}
 
 EXPECTED_MIN_OBLIGATIONS = {'C18': 150}
 
